@@ -604,6 +604,8 @@ def h6(rep, src):
         a = gets[0]["args"][0]
         while a["k"] == "ref":
             a = a["e"]
+        if is_call_to(a, "slice::from_ref") and len(a["args"]) == 1:  # std::slice::from_ref(&x) == &[x]
+            a = {"k": "array", "elems": [a["args"][0]]}
         if a["k"] == "array" and len(a["elems"]) == 1:
             e = a["elems"][0]
             while e["k"] == "mcall" and e["m"] in ("clone", "to_string", "to_owned", "as_str") or e["k"] == "ref":
